@@ -24,3 +24,15 @@ impl StyleSheetOutput {
 }
 pub struct StepParser { pub _x: u8 }
 pub struct VxParseError { pub _x: u8 }
+/// urlencoding::encode (external crate, A6): percent-encoding of the UTF-8 bytes; what matters here: it is a function of
+/// the path, its result contains no `*` `/` pair or any other character outside [A-Za-z0-9-_.~%], and percent-decoding
+/// gives the path back (these facts are the crate's documented contract, assumed)
+pub uninterp spec fn pct_enc(s: Seq<char>) -> Seq<char>;
+#[verifier::external_body]
+fn vx_urlencode(s: &str) -> (r: String)
+    ensures r@ == pct_enc(s@),
+{ unimplemented!() }
+#[verifier::external_body]
+fn vx_fmt_space(a: &String, b: &String) -> (r: String)
+    ensures r@ == a@ + seq![' '] + b@,
+{ unimplemented!() }
